@@ -178,7 +178,7 @@ def malformed_cases():
     out = []
     for name in SCORERS:
         for kind in ["float", "bool", "wide", "narrow", "1d-ok", "1d-bad", "1d-multi", "1d-empty", "3d", "empty", "float-integral", "list",
-                     "frame-float", "series-float", "frame-out-of-range-float"]:
+                     "frame-float", "series-float", "frame-out-of-range-float", "column", "column-list", "column-frame", "row-of-columns"]:
             out.append({"scorer": name, "kind": kind})
     return out
 
@@ -205,7 +205,11 @@ def impl_malformed(c):
            "frame-out-of-range-float": __import__("pandas").DataFrame(np.array([[-0.5] + good[1:-1] + [n + 0.9]], dtype=float)),
            # a flat vector as long as two rows (it is ONE row of twice the width, not two rows), and an empty flat vector
            "1d-multi": np.array({2: [0, 4, 5, 9], 3: [0, 3, 6, 6, 7, 9][:3] + [1, 5, 9], 4: [0, 2, 4, 6, 1, 3, 6, 9]}[k]),
-           "1d-empty": np.array([], dtype=int)}[kind]
+           "1d-empty": np.array([], dtype=int),
+           # ONE column with as many rows as a cut has entries (increasing, in range): that is k rows of width 1, not one row
+           "column": np.array(good).reshape(-1, 1), "column-list": [[g] for g in good],
+           "column-frame": __import__("pandas").DataFrame(np.array(good).reshape(-1, 1)),
+           "row-of-columns": np.array(good).reshape(1, -1, 1)}[kind]
     cls, v = classify(lambda: sc.evaluate(arr))
     return {"outcome": "ok", "cls": cls, "shape": None if v is None else list(np.shape(v))}
 
@@ -435,7 +439,7 @@ def run(chk: core.Check):
     chk.rules.append(
         "box: EVERY integer tuple of [-2, n+2]^k for each of the 16 scorers / adapter compositions (k=2: n=6, k=3: n=5, k=4: n=4; +1 in "
         "the thorough tier; +1 for multivariate costs), data with p in {1,2,3} columns, scorer objects fresh or fitted before on another "
-        "number of columns; malformed: float / bool / wrong-width / 1-D / 3-D / empty containers; dtypes: cuts of the eight NumPy integer dtypes (rows inside the "
+        "number of columns; malformed: float / bool / wrong-width / 1-D / 3-D / empty containers, one-column arrays with as many rows as a cut has entries; dtypes: cuts of the eight NumPy integer dtypes (rows inside the "
         "data, ties, inversions, and values at the ends of the dtype's range) for six scorers, valid ones also compared with their int64 "
         "evaluation. Non-trivial: every box (each contains "
         "valid and invalid tuples); distinct by (scorer, p, refit)"
